@@ -188,7 +188,7 @@ struct Runner {
     }
 
     void step() {
-        unsigned r = (unsigned) rng.below(1000), acc = 0;
+        unsigned r = (unsigned) rng.below(1120), acc = 0;   // the weights below add up to 1120 (arithmetic types; strings fall through for the rest)
         auto in = [&](unsigned w) { acc += w; return r < acc; };
         if (in(90)) { int i = (int) rng.below(4); if (!subs[i].live) subscribe(i); else unsubscribe(i); return; }
         if (in(250)) {
